@@ -156,7 +156,7 @@ SPECS["C06"] = dict(
     assumptions=["server sends one reply per query (as the property states)"],
     parts=[dict(name="reuse", pkg="internal/upstream/transport", run="TestVerifC06", go="go1.26", env=E3ENV, gomaxprocs=1, engines=E3ENGINES,
                 files=dict(TRANSPORT_COMMON, **{"harness/transport/zz_verif_c06_test.go": "internal/upstream/transport/zz_verif_c06_test.go"}),
-                params={"quick": {"DEPTH": 7, "FAULTS": 2}, "thorough": {"DEPTH": 9, "FAULTS": 3}},
+                params={"quick": {"DEPTH": 6, "FAULTS": 2}, "thorough": {"DEPTH": 9, "FAULTS": 3}},
                 budget={"quick": 60, "thorough": 600})],
 )
 
